@@ -7,7 +7,7 @@ from contracts import build_registry
 
 if __name__ == "__main__":
     w = World()
-    reg = build_registry()
+    reg = build_registry(w)
     for q in sys.argv[1:]:
         if q.startswith("-"):
             continue
